@@ -64,6 +64,8 @@ type pxWorld struct {
 	served      chan struct{}
 	// slowDial, if set, makes a dial of "tarpit" block until it is closed, and then fail.
 	slowDial chan struct{}
+	// deaf: names whose proxy-side Read ignores its context (a transport that only returns when data arrives or it fails)
+	deaf map[string]bool
 	// blockGate, if set, parks the address-rewriting callback for destination "block" until closed
 	blockGate chan struct{}
 }
@@ -106,6 +108,7 @@ func newPxWorld(ser bool, rewrite goat.RpcIntercepter) *pxWorld {
 func (w *pxWorld) newLinkLocked(name string) *kit.Link {
 	w.gen[name]++
 	l := kit.NewLink(fmt.Sprintf("%s.%d", name, w.gen[name]), w.Tap, w.ser)
+	l.B.IgnoreReadCtx = w.deaf[name]
 	w.peers[name] = l
 	return l
 }
@@ -613,7 +616,7 @@ var _ = sort.Strings
 // ---- C16 attach: peers attaching while the first envelope for their name is in flight ----------
 
 type C16Attach struct {
-	N      int    `json:"n"`      // names tried in one proxy
+	N      int    `json:"n"` // names tried in one proxy
 	Ser    bool   `json:"ser"`
 	Sender string `json:"sender"` // who sends the probe after the attach: "same" client as the racing envelope or "other"
 	Burst  int    `json:"burst"`  // envelopes racing with the attach (1..3)
